@@ -1,9 +1,14 @@
 """C05 — System.wrap and System.normalize / atomman.lammps.normalize.
 
-Tie: correspondence.  The hand-written Lean model (lean/Atomman/C05.lean: `wrap`, `normalize?`) is run
-by the compiled driver on exactly the rational inputs the real code saw; image flags are compared
-exactly, positions/box exactly in the grid regime and within a derived bound elsewhere.
-Search: the clauses of the property evaluated on the real code with fractions.Fraction.
+Tie: correspondence.  The hand-written Lean model (lean/Atomman/C05.lean: `wrap`, `normalize?`;
+lean/Atomman/C05_Hist.lean: the object with its cached reciprocal vectors, the clean-up of the `vects`
+setter, histories of operations) is run by the compiled driver on exactly the rational inputs the real
+code saw; image flags are compared exactly, positions/box exactly in the grid regime and within a derived
+rounding bound elsewhere.  Besides single calls, *histories on ONE System object* are compared step by
+step (model restarted from the implementation's own state before each step, so the only thing a history
+can add is hidden state of the implementation — which the theorems say must not exist).
+Search: the clauses of the property evaluated on the real code with fractions.Fraction, on single calls
+and at every wrap / normalize of such histories.
 """
 from __future__ import annotations
 
@@ -20,6 +25,11 @@ THEOREMS = [
     'C05.gram_eq_rotation', 'C05.normalize_proper_rotation', 'C05.normalize_inside',
     'C05.dist_depends_on_gram', 'C05.normalize_rel_mod_one', 'C05.normalize_image_distances',
     'C05.normalize_distance_spectrum', 'C05.sqrt_args_closed_form', 'C05.isFloor_ratFloor', 'C05.sqrtOK_real',
+    # object-level state (cached reciprocal vectors) and histories
+    'C05.wrapWith_recip', 'C05.recip_spec', 'C05.getSpos_spec', 'C05.boxSet_spec', 'C05.wrapC_spec',
+    'C05.rebuild_spec', 'C05.normalizeC_spec', 'C05.stepC_erase', 'C05.runC_erase', 'C05.runC_cache_irrelevant',
+    'C05.coherent_fresh', 'C05.hist_wrap_reconstruct', 'C05.hist_wrap_inside', 'C05.normalizeS_eq_normalize',
+    'C05.hist_normalize', 'C05.zeroSmall_eq_self',
 ]
 PARTIAL = {
     'input_left_as_it_was': 'a heap fact (aliasing/mutation), true by construction of the functional model and '
@@ -27,6 +37,13 @@ PARTIAL = {
                             'snapshot of the input system and numpy.shares_memory on every per-atom array and the box',
     'lengths_and_angles': 'stated as equality of the Gram matrix (squared lengths, dot products) and of the '
                           'determinant; lengths and angles are sqrt/arccos of these (not formed in the model)',
+    'setter_clean_up': 'the "zero out near zero terms" step of the Box.vects setter (components below 1e-9 of the '
+                       'largest one are set to 0) is part of the object-level model (zeroSmall) and of the '
+                       'correspondence, but the wrap_*/normalize_* theorems are about the functional model without it: '
+                       'they transfer to the object under the explicit hypothesis that the clean-up is inactive '
+                       '(hist_wrap_inside: hclean; hist_normalize: hc1-hc3; zeroSmall_eq_self says when). Where it is '
+                       'active the real code does change a cell vector by up to 1e-9 of the largest component; the '
+                       'oracle grants exactly that much and only where a component became exactly 0',
 }
 RULE = ('wrap: cells = products of dyadic shears/permutations/diagonal powers of two whose numpy inverse is '
         'exact (grid regime: relative coordinates multiples of 1/8 incl. exactly on faces, up to 2^10 cells '
@@ -34,7 +51,15 @@ RULE = ('wrap: cells = products of dyadic shears/permutations/diagonal powers of
         'float cells (tolerance regime: atoms up to 1e6 cells outside, atoms within 1e-13 of faces; a flag is '
         'exempt only where the model puts the scaled coordinate within 1e-9(1+|s|) of an integer); all 8 pbc '
         'settings, non-zero origins, extra per-atom properties. normalize: the same cell families, fully '
-        'periodic plus some partially periodic systems. distinct = distinct canonical driver line; '
+        'periodic plus some partially periodic systems. histories: 2-9 operations on ONE System object drawn from '
+        '{read scaled positions, wrap, normalize, box_set(vects=/avect=/lx=.., scale=True/False), Box.set, '
+        'box.vects=, box.origin=, pbc=, rebuild from a,b,c,angles} with the new cell = old cell times (1+E), |E| '
+        'log-uniform in [1e-13, 3e-2] (isotropic, diagonal, single shear, full, lower-triangular), identical, a fresh '
+        'random cell, or (grid) a row permutation/negation/power-of-two scaling/dyadic shear 2^-4..2^-40; atoms tens '
+        'to thousands of cells outside (up to 1e6 in the float regime); every step compared with the model restarted '
+        'from the implementation state before it, at the bound 32 u kappa (1+|s|) (u=2^-53, kappa=|| |V||V^-1| ||); '
+        'histories that stay on the grid are also run as one chain on the object-level model and compared exactly. '
+        'distinct = distinct canonical driver line; '
         'non-trivial = at least one atom outside the cell or a left-handed/non-normal cell')
 ASSUMPTIONS = [
     'numpy.floor followed by the cast to int is the mathematical floor (parameter `fl` with '
@@ -44,9 +69,15 @@ ASSUMPTIONS = [
     'cos(arccos(x)) = x for the cell-angle cosines (the model keeps cosines, never forms angles); the clamp of '
     'vect_angle to [-1,1] is inactive in exact arithmetic (Cauchy-Schwarz)',
     'numpy.linalg.inv is the exact inverse; numpy.linalg.lstsq on a square non-singular system is the exact solve',
-    'IEEE double rounding of the implementation is bounded by 1e-9(1+|s|) relative to the cell size on the '
-    'generated inputs (bounded condition number); the 1e-9-relative "zero out near zero terms" clean-up of '
-    'the Box.vects setter is below that bound and not modelled',
+    'IEEE double rounding of the implementation: single calls are compared at 1e-9(1+|s|) relative to the cell size; '
+    'histories and every oracle clause at the derived bounds |ds| <= 32 u kappa (1+|s|), |dp| <= (32 kappa + 8) u '
+    '(1+|s|)|V| + 8u|o| (u = 2^-53, kappa = || |V||V^-1| ||; normalize: 256 u kappa^2, transform: normwise kappa); '
+    'the largest fraction of each bound actually used is recorded in the evidence file (bound_used)',
+    'the 1e-9-relative "zero out near zero terms" clean-up of the Box.vects setter is modelled in the object-level '
+    'model (histories) and ignored by the single-call model (absorbed by its 1e-9 tolerance)',
+    'every write of the cell vectors goes through the Box.vects setter (CSys.setVects), which drops the cached '
+    'reciprocal vectors: this is the discipline runC_erase needs; the correspondence on histories checks that the '
+    'implementation follows it',
     'the cell is non-singular (det vects != 0)',
 ]
 TRUSTED = ['numpy (inner, dot, floor, min/max, inv, lstsq) inside the implementation run',
